@@ -3261,7 +3261,17 @@ func clauseDigestParsedBeforeUse(c *Ctx, id string) {
 			n++
 			recv := ci.Common().Args[0]
 			bare := false
-			for _, rv := range reachingVals(recv) {
+			cands := []ssa.Value{recv}
+			if ld, ok := recv.(*ssa.UnOp); ok {
+				if a, ok := ld.X.(*ssa.Alloc); ok {
+					for _, r := range *a.Referrers() {
+						if st, ok := r.(*ssa.Store); ok && st.Addr == a {
+							cands = append(cands, st.Val)
+						}
+					}
+				}
+			}
+			for _, rv := range cands {
 				switch x := stripConvKeepType(rv).(type) {
 				case *ssa.ChangeType:
 					if b, ok := x.X.Type().Underlying().(*types.Basic); ok && b.Kind() == types.String {
